@@ -11,8 +11,11 @@
   * Environments are lexical: a `let` extends the environment for the rest of its block, a loop binds its
     variable in the body only, a callee starts from exactly the data passed to it.
   * Lists and maps have no identity here (`==` on them is unspecified).
-  * Print directives and message bundles are outside Appendix A (they belong to C03/C16/C11): a {msg}
-    under a bundle is `unspec`; a print with directives is `unspec` unless a directive semantics `DirSem`
+  * Print directives and message bundles are outside Appendix A (they belong to C03/C16/C11).  A {msg}
+    under a bundle is `unspec` unless the bundle's content `MsgSem` is supplied: then a message without a
+    translation renders its source; a translation renders its parts in order — raw text verbatim, a
+    placeholder part as the source placeholder of that name, a plural part as the form the bundle's plural
+    function selects for the value of the plural variable (`renderT`).  A print with directives is `unspec` unless a directive semantics `DirSem`
     is supplied (which names exist, their arities, whether they cancel autoescaping, and what an
     implementation computes — all parameters): then the directives apply left to right to the value, an
     unknown name or a wrong number of arguments is an error, the arguments are evaluated left to right,
@@ -594,6 +597,82 @@ def orDefault (d : Unit → Out Bytes) : Option Bytes → Out Bytes
   | some out => .val out
   | none => d ()
 
+/-! ### message bundles
+
+  A translation is a list of parts (`soymsg.Part`): raw text, a placeholder NAME, or a plural over a plural
+  VARIABLE with one part list per plural form. -/
+mutual
+  inductive TPart where
+    | raw (text : Bytes)
+    | ph (name : Bytes)
+    | plural (varName : Bytes) (cases : TCases)
+  inductive TParts where
+    | nil
+    | cons (p : TPart) (rest : TParts)
+  inductive TCases where
+    | nil
+    | cons (parts : TParts) (rest : TCases)
+end
+
+/-- an installed message bundle: the translation of a message id (if it has one) and the plural form of a
+    number -/
+structure MsgSem where
+  message : Nat → Option TParts
+  pluralCase : Int → Int
+
+/-- what the render is given besides templates and data: a directive semantics, a message bundle -/
+structure LibSem where
+  dirs : Option DirSem := none
+  msgs : Option MsgSem := none
+
+def dirsOf (sem : Option LibSem) : Option DirSem := sem.bind (·.dirs)
+def msgsOf (sem : Option LibSem) : Option MsgSem := sem.bind (·.msgs)
+
+/-- the plural variable `vn` of a message: the value expression of its first top-level {plural} of that name -/
+def findPluralS : MsgParts → Bytes → Option Expr
+  | .nil, _ => none
+  | .text _ _ r, n => findPluralS r n
+  | .ph _ _ _ r, n => findPluralS r n
+  | .plural _ vn v _ _ _ r, n => if vn == n then some v else findPluralS r n
+
+/-- the placeholder called `name` of a message: of those with that name the one nearest to the root of the
+    message, the first in document order among those (the list carries depth, name, rendering) -/
+def pickPhS {α : Type} (name : Bytes) : List (Nat × Bytes × α) → Option (Nat × α) → Option α
+  | [], best => best.map (·.2)
+  | (d, n, f) :: r, best =>
+    if n == name then
+      match best with
+      | some (bd, _) => if d < bd then pickPhS name r (some (d, f)) else pickPhS name r best
+      | none => pickPhS name r (some (d, f))
+    else pickPhS name r best
+
+mutual
+/-- a translation: raw text verbatim; a placeholder part is the source placeholder of that name (no such
+    placeholder: an error); a plural part takes the form that `pluralCase n` selects for the value `n` of the
+    plural variable (no such variable, not an integer, no such form: an error) -/
+def renderT (B : MsgSem) (phs : List (Nat × Bytes × (Env → ROut))) (body : MsgParts) : TParts → Env → ROut
+  | .nil, env => .val ([], env)
+  | .cons (.raw t) rest, env => (renderT B phs body rest env).bind fun r => .val (t ++ r.1, r.2)
+  | .cons (.ph name) rest, env =>
+    match pickPhS name phs none with
+    | none => .error
+    | some f => (f env).bind fun r1 => (renderT B phs body rest r1.2).bind fun r2 => .val (r1.1 ++ r2.1, r2.2)
+  | .cons (.plural vn cases) rest, env =>
+    match findPluralS body vn with
+    | none => .error
+    | some ve => (eval env ve).bind fun v =>
+      match v with
+      | .int i =>
+        if B.pluralCase i < 0 then .error
+        else (renderTCases B phs body cases (B.pluralCase i).toNat env).bind fun r1 =>
+          (renderT B phs body rest r1.2).bind fun r2 => .val (r1.1 ++ r2.1, r2.2)
+      | _ => .error
+def renderTCases (B : MsgSem) (phs : List (Nat × Bytes × (Env → ROut))) (body : MsgParts) : TCases → Nat → Env → ROut
+  | .nil, _, _ => .error
+  | .cons parts _, 0, env => renderT B phs body parts env
+  | .cons _ rest, n + 1, env => renderTCases B phs body rest n env
+end
+
 /-- the data a callee starts from -/
 structure CallEnv where
   entry : Binds            -- the data map as passed in (params included)
@@ -602,20 +681,27 @@ structure CallEnv where
 
 section
 variable (reg : Registry.Reg) (hasBundle : Bool) (escape : Bool) (entry : Binds) (call : Registry.Tmpl → CallEnv → Out Bytes)
-  (dsem : Option DirSem)
+  (dsem : Option LibSem)
 
 mutual
 /-- a command: its text and the environment for the commands after it in the same block -/
 def renderCmd : Cmd → Env → ROut
   | .rawText _ t, env => .val (t, env)
   | .print _ arg dirs, env =>
-    if !dirs.isEmpty && dsem.isNone then .unspec
+    if !dirs.isEmpty && (dirsOf dsem).isNone then .unspec
     else (eval env arg).bind fun v =>
       if isUndef v then .error
-      else (runDirs dsem env dirs v escape).bind fun r => (showVal r.1).bind fun s =>
+      else (runDirs (dirsOf dsem) env dirs v escape).bind fun r => (showVal r.1).bind fun s =>
         .val (if r.2 then htmlEscape s else s, env)
-  | .msg _ _ _ _ _ body, env =>
-    if hasBundle then .unspec else (renderParts body env).bind fun r => .val (r.1, env)
+  | .msg _ id _ _ _ body, env =>
+    -- no bundle, or a bundle without a translation of this message: the source; else the translation
+    if !hasBundle then (renderParts body env).bind fun r => .val (r.1, env)
+    else match msgsOf dsem with
+      | none => .unspec                      -- a bundle whose content is not given
+      | some B =>
+        match B.message id with
+        | none => (renderParts body env).bind fun r => .val (r.1, env)
+        | some parts => (renderT B (sphAll body 0) body parts env).bind fun r => .val (r.1, env)
   | .css _ e suffix, env =>
     match e with
     | none => .val (suffix, env)
@@ -707,6 +793,16 @@ def renderPlural : PluralCases → (Env → ROut) → Int → Env → ROut
 def renderPh : MsgPhBody → Env → ROut
   | .htmlTag _ text, env => .val (text, env)
   | .cmd c, env => renderCmd c env
+/-- the placeholders of a message with their depth below its root, in document order (a plural's cases lie
+    one level deeper than its default) -/
+def sphAll : MsgParts → Nat → List (Nat × Bytes × (Env → ROut))
+  | .nil, _ => []
+  | .text _ _ rest, d => sphAll rest d
+  | .ph _ name body rest, d => (d, name, renderPh body) :: sphAll rest d
+  | .plural _ _ _ cases _ dflt rest, d => sphAllCases cases (d + 3) ++ sphAll dflt (d + 2) ++ sphAll rest d
+def sphAllCases : PluralCases → Nat → List (Nat × Bytes × (Env → ROut))
+  | .nil, _ => []
+  | .cons _ _ _ body rest, d => sphAll body d ++ sphAllCases rest d
 end
 
 /-- {switch}: the first case one of whose values equals the switch value, WHEREVER it stands (the cases
@@ -722,7 +818,7 @@ def escapeOn (t : Registry.Tmpl) : Bool :=
   (if t.autoescape != .unspecified then t.autoescape else t.nsAutoescape) != .off
 
 /-- a template applied to the data passed to it; `fuel` bounds the call depth -/
-def renderTmpl (reg : Registry.Reg) (hasBundle : Bool) (dsem : Option DirSem) : Nat → Registry.Tmpl → CallEnv → Out Bytes
+def renderTmpl (reg : Registry.Reg) (hasBundle : Bool) (dsem : Option LibSem) : Nat → Registry.Tmpl → CallEnv → Out Bytes
   | 0, _, _ => .unspec
   | fuel + 1, t, ce =>
     renderBlock reg hasBundle (escapeOn t) ce.entry (renderTmpl reg hasBundle dsem fuel) dsem t.body
@@ -730,7 +826,7 @@ def renderTmpl (reg : Registry.Reg) (hasBundle : Bool) (dsem : Option DirSem) : 
 
 /-- Spec.render: the text of template `name` on `data` -/
 def render (reg : Registry.Reg) (globals : Binds) (ij : Option Binds) (msgs : Bool) (name : Bytes) (data : Binds) (fuel : Nat)
-    (dsem : Option DirSem := none) : Out Bytes :=
+    (dsem : Option LibSem := none) : Out Bytes :=
   match Registry.lookup reg name with
   | none => .error
   | some t => renderTmpl reg msgs dsem fuel t { entry := data, ij := ij, globals := globals }
